@@ -13,6 +13,8 @@ ALL_TYPES = [1, 2, 3, 4, 11, 12, 13, 14, 20, 21, 22, 23, 24, 25, 26, 30, 31, 32,
 # reader-initiated messages: never a reply to a request (and, since the C03 fix in /repo, never delivered as one)
 READER_INITIATED = (61, 62, 63)
 REPLY_TYPES = [t for t in ALL_TYPES if t not in READER_INITIATED]
+INTERNAL = {"gsv": 56, "spv": 57, "close": 4}      # internal exchange -> its expected response type
+CONFIGS = ("none", "exp", "err", "def", "all")     # which MessageHandlers the client is built with (harness c12ClientOpts)
 ZERO = "0 - - -"
 SENTINEL = "48879 73656e74696e656c 7.8 9.10.11.12"     # what the harness pre-fills in mode s
 BATCH = 300000
@@ -56,6 +58,18 @@ def prop_check(exp, act, code, scripted, go):
         what = [n for n, a, b in zip(("code", "description", "field", "parameter"), g, s) if a != b][0]
         return ("status-not-exposed:%s:%s" % (br, what),
                 "*StatusError %s differs from what the reader sent" % what)
+    return None
+
+
+def render_check(br, go):
+    """the returned error must be usable: every observer (Error, fmt verbs, unwrap chain, String of the codes, nested
+    errors) runs without panic, and the text carries the reader's description. go[10:13] = render, contains, hash"""
+    if go[0] not in ("status", "other"):
+        return None
+    if go[10] != "ok":
+        return ("error-unusable:%s" % go[10], "using the returned error panics in %s" % go[10].split("@")[-1])
+    if go[0] == "status" and go[11] == "n":
+        return ("error-text-lacks-description:%s" % br, "the error's text does not contain the reader's description / the status error's text")
     return None
 
 
@@ -110,20 +124,25 @@ class Gen:
             s.add(self.rnd.randrange(65536))
         return sorted(c for c in s if 0 <= c < 65536)
 
-    def build(self):
+    def build(self, light=False):
+        """light: the same scenario classes without the 65536-code sweeps (used for the additional handler configurations)"""
+        self.groups = []
         rnd, st = self.rnd, self.stypes
         # 1. every status code, on the expected-type branch and on the ERROR_MESSAGE branch
-        # quick: CloseConnectionResponse, AddROSpecResponse, GetSupportedVersionResponse (status after two version bytes),
-        # ErrorMessage itself as the expected type, and two more chosen by the seed; thorough: every status-bearing type
+        # quick: AddROSpecResponse, GetSupportedVersionResponse (status after two version bytes), ErrorMessage itself as
+        # the expected type, and one more chosen by the seed; thorough: every status-bearing type
         rest = [t for t in st if t not in (4, 30, 56, ERRMSG)]
-        full = list(st) if self.thorough else sorted(({4, 30, 56, ERRMSG} | set(rnd.sample(rest, min(2, len(rest))))) & set(st))
+        full = list(st) if self.thorough else sorted(({30, 56, ERRMSG} | set(rnd.sample(rest + [4], 1))) & set(st))
+        if light:
+            full = []
         for e in st:
             if e in full:
-                self.r("codes", e, e, 0, 65536)
+                dsc = "72656164657220736169643a206e6f" if e == 30 else "-"     # "reader said: no"
+                self.r("codes", e, e, 0, 65536, dsc)
                 if e != ERRMSG:
-                    self.r("codes", e, ERRMSG, 0, 65536)
+                    self.r("codes", e, ERRMSG, 0, 65536, dsc)
             else:
-                for c in self.sample_codes(300):
+                for c in self.sample_codes(120 if light else 300):
                     self.x("codes-sampled", e, e, c)
                     self.x("codes-sampled", e, ERRMSG, c)
         # 2. all (expected, actual) pairs: expected over the status-bearing types, actual over the 43 message types that can
@@ -138,7 +157,7 @@ class Gen:
                 if a in (e, ERRMSG):
                     self.x("pairs", e, a, 101, "6f6f7073", "2.300", "137.201.1.301", "zP")
         # 3. nested FieldError / ParameterError shapes: every present/absent pattern to depth 4, deeper chains
-        reps = 12 if self.thorough else 3
+        reps = 1 if light else (12 if self.thorough else 3)
         shapes = [(tf, d, m) for tf in (0, 1) for d in range(5) for m in range(1 << d)]
         for d in (5, 6, 7, 8, 16, 64) + ((500, 2000) if self.thorough else (300,)):
             for _ in range(2):
@@ -174,7 +193,35 @@ class Gen:
         # longest description together with nested detail (parameter length exactly 65535)
         self.x("descriptions", 30, 30, 402, hexs(b"m" * (65527 - 8 - 16)), "1.2", "3.4.5.6")
         self.x("descriptions", 30, ERRMSG, 402, hexs(b"m" * (65527 - 8 - 16)), "1.2", "3.4.5.6")
+        # 5. every status code also as the code NESTED in a FieldError and in two ParameterError levels (the error's
+        #    text is built from those codes too)
+        if not light:
+            for e in ([30] if not self.thorough else [30, rnd.choice(rest)]):
+                for a in (e, ERRMSG):
+                    cs = range(65536) if (a == e or self.thorough) else sorted(set(range(1000)) | set(self.sample_codes(300)))
+                    for c in cs:
+                        self.x("nested-codes", e, a, 101, "6e", "3.%d" % c, "137.%d.4.%d,138.%d" % (c, c, c))
         return self.groups
+
+    def build_internal(self):
+        """the exchanges the Client performs itself: (which, act, code, desc, fe, pe, mode);
+        gsv = Connect's GET_SUPPORTED_VERSION, spv = Connect's SET_PROTOCOL_VERSION, close = Shutdown's CLOSE_CONNECTION"""
+        out = []
+        codes = list(range(65536)) if self.thorough else sorted(set(range(1, 500)) | set(self.sample_codes(300)))
+        for w, exp in INTERNAL.items():
+            for a in (exp, ERRMSG):
+                for c in codes:
+                    if c == 0 and a == ERRMSG:
+                        continue          # ERROR_MESSAGE with Success is never sent by a reader; not constrained here
+                    out.append((w, a, c, "-" if c % 3 else "696e7465726e616c", "-", "-", "z"))
+                for c in (101, 202, 65535):
+                    out.append((w, a, c, "6e6573746564", self.fe(1), self.pe(2, 1), "z"))
+                    out.append((w, a, c, "6e6573746564", self.fe(1), self.pe(2, 1), "zP"))
+            out.append((w, exp, 0, "-", "-", "-", "z"))
+            for a in (30, 31, 13):
+                if a != exp:
+                    out.append((w, a, 101, "6f", "-", "-", "z"))
+        return out
 
     def build_concurrent(self):
         """k = 2..4 SendFor calls in flight on one Client, replies written back to back in one write:
@@ -267,11 +314,20 @@ def run(tier, seed, replay=None):
         unsol = [tuple(c[:7]) for c in rp.get("cases", []) if len(c) == 8 and c[7] == "u"]
         # the concurrent scenario depends on scheduling: a replayed round is repeated
         conc = [(c[1], c[2], [tuple(x) for x in c[3]]) for c in rp.get("cases", []) if len(c) == 4 and c[0] == "c"] * 60
+        internal = [tuple(c[1:]) for c in rp.get("cases", []) if len(c) == 8 and c[0] == "i"]
+        unsol = [u for u in unsol if u[0] != "i"]
+        by_cfg = {rp.get("config", "none"): groups}
+        do_dt = False
     else:
         gen = Gen(seed, thorough, stypes)
         groups = gen.build()
         unsol = gen.build_unsolicited()
         conc = gen.build_concurrent()
+        internal = gen.build_internal()
+        by_cfg = {"none": groups}
+        for n, cfg in enumerate(CONFIGS[1:]):
+            by_cfg[cfg] = Gen(seed + 1000 * (n + 1), thorough, stypes).build(light=True)
+        do_dt = True
 
     fails = {}            # signature -> [count, text, found_input, [cases]]
     dist, evals, nontriv = {}, 0, 0
@@ -279,14 +335,24 @@ def run(tier, seed, replay=None):
     samples, want_samples = [], {"codes": 2, "pairs": 2, "shapes": 2, "descriptions": 1, "replay": 3}
     seen_depth, seen_desc_len, seen_pairs, codes_full = 0, 0, set(), 0
 
-    def fail(sig, text, found, case, go, expect):
-        f = fails.setdefault(sig, [0, text, found, [], go, expect])
+    def fail(sig, text, found, case, go, expect, cfg="none"):
+        f = fails.setdefault(sig, [0, text, found, [], go, expect, cfg])
         f[0] += 1
         if len(f[3]) < 5:
             f[3].append(case)
 
-    i = 0
-    while i < len(groups):
+    inj = {}              # sweep over codes -> {text hash: code}: the error's text must tell the codes apart
+    render_stats = dict(errors_rendered=0, observers="Error, fmt %v %+v %s, errors.Unwrap chain, errors.Is/As, StatusError.Error, "
+                        "StatusCode.String, FieldError.Error, ParameterError.Error (every level)")
+    cfg_stats = {}
+    work = [(cfg, g) for cfg, g in by_cfg.items()]
+    groups, i, cfg, pfx = [], 0, "none", ""
+    while i < len(groups) or work:
+        if i >= len(groups):
+            cfg, groups = work.pop(0)
+            i, pfx = 0, ("" if cfg == "none" else "handlers=%s:" % cfg)
+            if not groups:
+                continue
         batch, n = [], 0
         while i < len(groups) and (n == 0 or n + groups[i][4] - groups[i][3] <= BATCH):
             batch.append(groups[i]); n += groups[i][4] - groups[i][3]; i += 1
@@ -298,7 +364,8 @@ def run(tier, seed, replay=None):
             else:
                 greq.append("r %d %d %d %d %s %s %s %s" % (e, a, lo, hi, d, f, p, mode))
                 oreq.append("r %d %d %d %d %s %s %s" % (e, a, lo, hi, d, f, p))
-        rc, gl, glog = vlib.run_harness(exe, "TestVerifC12", "\n".join(greq) + "\n", timeout=1500, tag="b%d" % i)
+        rc, gl, glog = vlib.run_harness(exe, "TestVerifC12", "cfg %s\n" % cfg + "\n".join(greq) + "\n", timeout=1500, tag="b%s%d" % (cfg, i))
+        gl = gl[1:]           # answer to the cfg line
         orc, oout = vlib.run_oracle("c12", "\n".join(oreq) + "\n", timeout=1500)
         ol = oout.split("\n")
         if ol and ol[-1] == "":
@@ -312,14 +379,18 @@ def run(tier, seed, replay=None):
             tail = " %s %s %s" % (d, f, p)
             br = branch_of(e, a)
             if hi - lo > 1:
-                rkeys.add((e, a, d, f, p))
+                rkeys.add((cfg, e, a, d, f, p))
                 nontriv += (hi - lo) - (1 if (lo == 0 and a == e) else 0)
                 codes_full += hi - lo
-            elif (mode[1:] or (e, a, d, f, p) not in rkeys) and (e, a, lo, d, f, p, mode[1:]) not in xset:
-                xset.add((e, a, lo, d, f, p, mode[1:]))
+                ikey = ("codes", cfg, e, a, d, f, p)
+            elif (mode[1:] or (cfg, e, a, d, f, p) not in rkeys) and (cfg, e, a, lo, d, f, p, mode[1:]) not in xset:
+                xset.add((cfg, e, a, lo, d, f, p, mode[1:]))
                 if lo != 0 or a != e:
                     nontriv += 1
-            dist[kind + ":" + br] = dist.get(kind + ":" + br, 0) + hi - lo
+            if hi - lo == 1:
+                ikey = ("nested-codes", cfg, e, a) if kind == "nested-codes" else None
+            dist[pfx + kind + ":" + br] = dist.get(pfx + kind + ":" + br, 0) + hi - lo
+            cfg_stats[cfg] = cfg_stats.get(cfg, 0) + hi - lo
             seen_pairs.add((e, a))
             if p != "-":
                 seen_depth = max(seen_depth, p.count(",") + 1)
@@ -331,26 +402,35 @@ def run(tier, seed, replay=None):
                 evals += 1
                 gt = g.split(" ")
                 case = [e, a, c, d, f, p, mode]
-                if len(gt) != 10:
-                    fail("harness-answer", "unexpected harness answer: " + g[:200], False, case, g[:300], o[:300])
+                if len(gt) != 13:
+                    fail("harness-answer", "unexpected harness answer: " + g[:200], False, case, g[:300], o[:300], cfg)
                     continue
                 if gt[0] == "skipped":
-                    fail("harness-skipped", "exchanges not run because earlier ones timed out or panicked", False, case, g, o[:300])
+                    fail(pfx + "harness-skipped", "exchanges not run because earlier ones timed out or panicked", False, case, g, o[:300], cfg)
                     continue
                 scripted = str(c) + tail
                 if want_samples.get(kind, 0) > 0 and (c in (0, 101, 65535) or kind != "codes") and len(g) < 300:
                     want_samples[kind] -= 1
                     samples.append(dict(expected_type=e, reply_type=a, status=scripted, response_prefill=mode, go=g, model=o))
-                bad = prop_check(e, a, c, scripted, gt)
+                what = "SendFor%s expecting type %d, reply type %d with status [%s]" % (
+                    "" if cfg == "none" else " (client with handlers '%s')" % cfg, e, a, scripted[:200])
+                bad = prop_check(e, a, c, scripted, gt) or render_check(br, gt)
                 if bad:
-                    fail(bad[0], "SendFor expecting type %d, reply type %d with status [%s]: %s; Go returned [%s]" % (
-                        e, a, scripted[:200], bad[1], g[:300]), True, case, g[:300], o[:300])
+                    fail(pfx + bad[0], "%s: %s; Go returned [%s]" % (what, bad[1], g[:300]), True, case, g[:300], o[:300], cfg)
                     continue
+                if gt[0] in ("status", "other"):
+                    render_stats["errors_rendered"] += 1
+                if gt[0] == "status" and ikey is not None:
+                    seen = inj.setdefault(ikey, {})
+                    other = seen.setdefault(gt[12], (c, f))
+                    if other != (c, f):
+                        fail(pfx + "error-text-ambiguous-code", "%s: the error's text is the same as for %s — the text does not expose the code" % (
+                            what, other), True, case, g[:300], o[:300], cfg)
+                        continue
                 merr, msame, min_ = model_expect(o, mode)
                 if " ".join(gt[0:5]) != merr or (msame and gt[5] != msame) or (min_ and " ".join(gt[6:10]) != min_):
-                    fail("model-differs:" + br, "SendFor expecting type %d, reply type %d with status [%s]: Go [%s] differs from "
-                         "the model [%s] where the property does not constrain it" % (e, a, scripted[:200], g[:300], o[:300]),
-                         False, case, g[:300], o[:300])
+                    fail(pfx + "model-differs:" + br, "%s: Go [%s] differs from the model [%s] where the property does not constrain it" % (
+                        what, g[:300], o[:300]), False, case, g[:300], o[:300], cfg)
 
     # reader-initiated frame with the request's id, then the real reply. Two behaviours satisfy C12:
     #  (a) the frame is not a reply (current /repo): SendFor's outcome is that of the real reply;
@@ -377,7 +457,7 @@ def run(tier, seed, replay=None):
             dist["unsolicited:%d" % pre] = dist.get("unsolicited:%d" % pre, 0) + 1
             scripted = "%d %s %s %s" % (c, d, f, p)
             what = "SendFor expecting type %d; a type-%d frame with the request's id, then the reply of type %d with status [%s]" % (e, pre, e, scripted[:200])
-            if len(gt) != 10:
+            if len(gt) != 13:
                 fail("harness-answer", "unexpected harness answer: " + g[:200], False, case, g[:300], o_a[:300])
                 continue
             if gt[0] == "skipped":
@@ -390,7 +470,7 @@ def run(tier, seed, replay=None):
                 beh, o = "delivered-as-reply", o_b
             else:
                 beh, o = "not-a-reply", o_a
-                bad = prop_check(e, e, c, scripted, gt)
+                bad = prop_check(e, e, c, scripted, gt) or render_check("expected", gt)
                 if bad:
                     fail("unsolicited:" + bad[0], what + ": " + bad[1] + "; Go returned [%s]" % g[:300], True, case, g[:300], o_a[:300])
                     continue
@@ -450,13 +530,13 @@ def run(tier, seed, replay=None):
                 scripted = "%d %s %s %s" % (code, d, f, p)
                 what = "%d SendFor calls in flight, replies written in order %s; caller %d expecting type %d got a reply of type %d with status [%s]" % (
                     len(cases), perm, i, e, a, scripted[:200])
-                if len(gt) != 10:
+                if len(gt) != 13:
                     fail("harness-answer", "unexpected harness answer: " + ans[:200], False, rcase, g[:600], o[:300])
                     continue
                 if gt[0] == "skipped":
                     fail("harness-skipped", "exchanges not run because earlier ones timed out or panicked", False, rcase, g[:600], o[:300])
                     continue
-                bad = prop_check(e, a, code, scripted, gt)
+                bad = prop_check(e, a, code, scripted, gt) or render_check(branch_of(e, a), gt)
                 if bad:
                     fam = bad[0].split(":")[0]
                     sig = "wrong-status-under-concurrency" if fam in ("nonzero-status-not-error", "status-not-exposed", "success-reported-as-error",
@@ -468,15 +548,97 @@ def run(tier, seed, replay=None):
                     fail("model-differs:concurrent", what + ": Go [%s] differs from the model [%s] where the property does not constrain it" % (
                         ans[:300], o[:300]), False, rcase, g[:600], o[:300])
 
-    for sig, (cnt, text, found, cases, g, o) in sorted(fails.items()):
+    # the text of every status code by itself (StatusCode.defaultText / String) vs the model's default_text_ref
+    dt_stats = dict(codes=0)
+    if do_dt:
+        rc, gl, glog = vlib.run_harness(exe, "TestVerifC12", "dt 0 65536\n", timeout=300, tag="dt")
+        orc, oout = vlib.run_oracle("c12", "dt 0 65536\n", timeout=300)
+        ol = oout.split("\n")
+        if rc != 0 or len(gl) != 65536 or orc != 0 or len(ol) < 65536:
+            res.violation("harness-run", "Go harness / oracle failed on 'dt' (rc=%s/%s, %d answers): %s" % (rc, orc, len(gl), glog[-1500:]),
+                          dict(kind="harness", log=glog[-3000:]), False)
+            return res.finish()
+        texts = {}
+        for c in range(65536):
+            g, o = gl[c].split(" "), ol[c].split(" ")
+            evals += 1
+            dt_stats["codes"] += 1
+            case = ["dt", c]
+            if g[0] != "ok":
+                fail("error-unusable:panic@StatusCode-text", "producing the text of status code %d panics (defaultText / String)" % c, True, case, gl[c], ol[c])
+                continue
+            txt = bytes.fromhex(g[1]).decode("utf8", "replace")
+            dflt = txt.split("|")[0]
+            if o[0] != "ok":
+                fail("model-differs:text", "the model's text table index for code %d is out of range" % c, False, case, gl[c], ol[c])
+            if dflt in texts:
+                fail("error-text-ambiguous-code", "status codes %d and %d have the same text %r" % (texts[dflt], c, dflt), True, case, gl[c], ol[c])
+            texts[dflt] = c
+            if o[1] == "unknown" and str(c) not in dflt:
+                fail("error-text-lacks-code", "the text of the undefined status code %d, %r, does not mention the code" % (c, dflt), True, case, gl[c], ol[c])
+            if dflt == "":
+                fail("error-text-lacks-code", "status code %d has an empty text" % c, True, case, gl[c], ol[c])
+
+    # the request/response exchanges the Client performs itself (Connect: GET_SUPPORTED_VERSION, SET_PROTOCOL_VERSION;
+    # Shutdown: CLOSE_CONNECTION): same clauses. "Exposes" = errors.As(*StatusError) with the reader's fields, or the text
+    # of the surfaced error contains the text of a *StatusError with the reader's fields (these paths wrap with %v).
+    int_stats = {}
+    if internal:
+        greq = ["i %s %d %d %s %s %s %s" % c for c in internal]
+        rc, gl, glog = vlib.run_harness(exe, "TestVerifC12", "\n".join(greq) + "\n", timeout=1500, tag="i")
+        if rc != 0 or len(gl) != len(internal):
+            res.violation("harness-run", "Go harness failed on the internal exchanges (rc=%s, %d of %d answers): %s" % (
+                rc, len(gl), len(internal), glog[-1500:]), dict(kind="harness", log=glog[-3000:]), False)
+            return res.finish()
+        for (w, a, c, d, f, p, mode), g in zip(internal, gl):
+            gt = g.split(" ")
+            case = ["i", w, a, c, d, f, p, mode]
+            exp = INTERNAL[w]
+            br = branch_of(exp, a)
+            evals += 1
+            nontriv += 1 if (c != 0 or a != exp) else 0
+            int_stats["%s:%s" % (w, br)] = int_stats.get("%s:%s" % (w, br), 0) + 1
+            scripted = "%d %s %s %s" % (c, d, f, p)
+            what = "%s: reply type %d with status [%s]" % ({"gsv": "Connect's GET_SUPPORTED_VERSION exchange", "spv": "Connect's SET_PROTOCOL_VERSION exchange",
+                                                           "close": "Shutdown's CLOSE_CONNECTION exchange"}[w], a, scripted[:200])
+            if len(gt) != 7:
+                fail("harness-answer", "unexpected harness answer: " + g[:200], False, case, g[:300], "")
+                continue
+            if len([x for x in samples if x.get("scenario") == "internal exchange"]) < 3 and c in (101, 110):
+                samples.append(dict(scenario="internal exchange", exchange=w, reply_type=a, status=scripted, go=g))
+            cls, got, rend, has = gt[0], " ".join(gt[1:5]), gt[5], gt[6]
+            bad = None
+            if cls == "timeout":
+                bad = ("no-outcome:timeout", "neither an error nor completion")
+            elif rend != "ok":
+                bad = ("error-unusable:" + rend, "using the returned error panics in %s" % rend.split("@")[-1])
+            elif br == "other":
+                if cls == "nil":
+                    bad = ("mismatch-not-error", "reply of an unrelated type reported as success")
+            elif c == 0:
+                if cls != "nil":
+                    bad = ("success-reported-as-error", "expected type with status Success reported as error")
+            elif w == "gsv" and br == "errmsg" and c == 110:
+                pass      # the documented exception: VersionUnsupported means a 1.0.1 reader (C06's subject)
+            elif cls == "nil":
+                bad = ("nonzero-status-not-error", "non-Success status reported as success")
+            elif not ((cls == "status" and got == scripted) or has == "y"):
+                bad = ("status-not-exposed", "the error exposes neither a *StatusError with the reader's fields nor their text")
+            if bad:
+                sig = "internal:%s:%s:%s" % (w, br, bad[0]) if br != "other" or bad[0].startswith("mismatch") else "internal:%s:%s" % (w, bad[0])
+                fail(sig, what + ": " + bad[1] + "; observed [%s]" % g[:300], True, case, g[:300], "")
+
+    for sig, (cnt, text, found, cases, g, o, fcfg) in sorted(fails.items()):
         res.violation(sig, text + (" (%d such cases)" % cnt if cnt > 1 else ""),
                       dict(kind="input" if found else "correspondence", correspondence="C12/SendFor-vs-send_for_outcome",
-                           cases=cases, observed=g, model=o, failing_cases=cnt,
+                           cases=cases, config=fcfg, observed=g, model=o, failing_cases=cnt,
                            case_format="[expected type, reply type, status code, description hex, FieldError idx.code, "
                                        "ParameterError levels ptype.code[.idx.code] outermost first, response prefill z|s]; with an 8th element 'u' the "
                                        "second entry is the type of a reader-initiated frame sent with the request's id before the real reply; "
                                        "['c', reply order, GOMAXPROCS (0 = default), [caller cases]] = that many SendFor calls in flight, replies in one write; "
-                                       "letters after z|s: P/I = ParameterError before FieldError at the top level / inside ParameterError"),
+                                       "letters after z|s: P/I = ParameterError before FieldError at the top level / inside ParameterError; "
+                                       "['i', gsv|spv|close, reply type, code, desc, fe, pe, mode] = the Client's own exchange in Connect / Shutdown; "
+                                       "'config' = MessageHandlers the client was built with (none|exp|err|def|all); ['dt', code] = text of a bare status code"),
                       found)
 
     res.coverage.update(
@@ -485,12 +647,15 @@ def run(tier, seed, replay=None):
              "FieldError, ParameterError chain); distinct by that tuple; non-trivial iff status != 0 or reply type != expected type; "
              "plus exchanges in which a reader-initiated frame (61/62/63) with the request's id precedes the real reply (all non-trivial); "
              "plus rounds of 2..4 concurrent SendFor calls whose replies arrive in one TCP write (evaluations counts callers, "
-             "distinct_nontrivial counts distinct rounds); both sub-parameter orders count as distinct cases",
+             "distinct_nontrivial counts distinct rounds); both sub-parameter orders count as distinct cases; the same classes are run on "
+             "clients built with MessageHandlers (distinct per configuration); plus Connect's/Shutdown's own exchanges; plus the bare "
+             "text of each of the 65536 codes (not counted as non-trivial)",
         samples=samples, input_distribution=dist, traces_validated_against_impl=evals,
         status_codes_enumerated="all 65536 codes on %d (expected, reply) type combinations (%d exchanges); 300 stratified codes on the others%s"
                                 % (len(rkeys), codes_full, "" if not thorough else " (none: thorough enumerates every status type)"),
         exhaustive=bool(thorough), exhaustive_note="thorough: 65536 codes x 19 status-bearing types x {expected, ERROR_MESSAGE}; "
                                                    "descriptions and nested shapes are sampled (unbounded space; covered by the proof)",
-        reader_initiated_frames=unsol_seen, concurrent=conc_seen, type_pairs=len(seen_pairs), status_types=stypes, max_nested_depth=seen_depth, max_description_bytes=seen_desc_len,
+        reader_initiated_frames=unsol_seen, concurrent=conc_seen, handler_configurations=cfg_stats, rendering=render_stats,
+        status_code_texts=dt_stats, internal_exchanges=int_stats, type_pairs=len(seen_pairs), status_types=stypes, max_nested_depth=seen_depth, max_description_bytes=seen_desc_len,
         trusted_base=res.assumptions)
     return res.finish()
